@@ -449,13 +449,14 @@ def rule_cl_exit(cx, rep, port='py'):
             rep.undecided('out-format input', r, 'how the output dialect is chosen was not recognised')
     else:
         rep.decide(oko, 'out-format input', r, '--out-format input reuses the input dialect; a named format gives its own', '--out-format input no longer reuses the input delimiter and policy (or a named format does not give its dialect)')
-    gd = p.func('rbql_main', 'get_default_policy')
+    gd_mod = next((m_ for m_ in ('rbql_main', 'rbql_csv', 'rbql_engine') if m_ in p.modules and p.func(m_, 'get_default_policy', required=False) is not None), 'rbql_main')
+    gd = p.func(gd_mod, 'get_default_policy')       # the helper may live in another library module that the command line imports
     # evaluated on the delimiters that matter and on representatives of "anything else"
     from .. import absexec as AX
     table, gave_up = {}, None
     for d_ in (';', ',', ' ', '\t', '|', ';;', ', ', '  ', ''):
         try:
-            runs, cut = AX.Explorer(p, 'rbql_main', max_choices=1).explore(gd, [d_])
+            runs, cut = AX.Explorer(p, gd_mod, max_choices=1).explore(gd, [d_])
             if cut or len(runs) != 1 or runs[0].outcome[0] != 'return' or not isinstance(runs[0].outcome[1], str):
                 raise Undecided('no single string result for {!r}'.format(d_), gd)
             table[d_] = runs[0].outcome[1]
